@@ -173,7 +173,7 @@ func genC19(r *Rng, tier string) []*Case {
 		id := func() string {
 			if raw {
 				if r.Chance(6) {
-					return []string{"-1", "0x3", "0b11", "1_0", "abc", "", "1.5", "99999999999999999999"}[r.Intn(8)]
+					return []string{"-1", "-2", "-10", "0x3", "0b11", "1_0", "abc", "", "1.5", "99999999999999999999"}[r.Intn(10)]
 				}
 				return strconv.Itoa(r.Intn(n))
 			}
@@ -291,8 +291,8 @@ func genC19(r *Rng, tier string) []*Case {
 				}
 				return libNames[r.Intn(len(libNames))]
 			}
-			if malformed && r.Chance(12) {
-				return []string{"-1", "0x3", "0b11", "0o7", "1_0", "abc", "", "1.5", "08", "99999999999999999999"}[r.Intn(10)]
+			if malformed && r.Chance(18) {
+				return []string{"-1", "-1", "-2", "-10", "0x3", "0b11", "0o7", "1_0", "abc", "", "1.5", "08", "99999999999999999999"}[r.Intn(13)]
 			}
 			if r.Chance(15) { // zero-padded and signed decimals are decimal literals
 				return []string{"%02d", "%03d", "+%d"}[r.Intn(3)][0:0] + fmt.Sprintf([]string{"%02d", "%03d", "+%d"}[r.Intn(3)], r.Intn(n+12))
